@@ -69,13 +69,13 @@ func init() {
 // order so that the open order finding does not apply. The receiver must compute the transmitted MAC.
 func c15Foreign(c *engine.Ctx) {
 	foreign := []ref.AKAAttr{
-		{T: 4, V: append([]byte{0x12, 0x34}, univ.Pat(12, 1)...)},  // AT_AUTS: 14 octets of data right after the length octet
-		{T: 12, V: []byte{0x80, 0x00}},                              // AT_NOTIFICATION: 16-bit code
+		{T: 4, V: append([]byte{0x12, 0x34}, univ.Pat(12, 1)...)},              // AT_AUTS: 14 octets of data right after the length octet
+		{T: 12, V: []byte{0x80, 0x00}},                                         // AT_NOTIFICATION: 16-bit code
 		{T: 14, V: append([]byte{0x00, 0x05}, []byte("user1\x00\x00\x00")...)}, // AT_IDENTITY: actual length + padded identity
-		{T: 19, V: []byte{0x00, 0x07}},                              // AT_COUNTER
-		{T: 22, V: []byte{0x00, 0x01}},                              // AT_CLIENT_ERROR_CODE
-		{T: 129, V: append([]byte{0xab, 0xcd}, univ.Pat(16, 2)...)}, // AT_IV
-		{T: 135, V: []byte{0xff, 0xff}},                             // AT_RESULT_IND with non-zero "reserved"
+		{T: 19, V: []byte{0x00, 0x07}},                                         // AT_COUNTER
+		{T: 22, V: []byte{0x00, 0x01}},                                         // AT_CLIENT_ERROR_CODE
+		{T: 129, V: append([]byte{0xab, 0xcd}, univ.Pat(16, 2)...)},            // AT_IV
+		{T: 135, V: []byte{0xff, 0xff}},                                        // AT_RESULT_IND with non-zero "reserved"
 	}
 	for mask := 1; mask < 1<<uint(len(foreign)); mask++ {
 		if !c.Mine() {
@@ -98,8 +98,105 @@ func c15Foreign(c *engine.Ctx) {
 	}
 }
 
+// c15Lookalike: attribute values whose aligned words look like attribute headers (in particular like AT_MAC's
+// "0b 05 00 00"): a MAC computation that finds its attributes by pattern instead of walking the length fields
+// zeroes or covers the wrong octets. Sender and receiver side, every carrier attribute × every header pattern.
+func c15Lookalike(c *engine.Ctx) {
+	hdrs := [][]byte{{0x0b, 0x05, 0, 0}, {0x0b, 0x05, 0x0b, 0x05}, {0x01, 0x05, 0, 0}, {0x02, 0x05, 0, 0}, {0x03, 0x02, 0, 0x20}, {0x17, 0x02, 0, 0x08}, {0x18, 0x01, 0, 1}, {0x86, 0x06, 0, 0}, {0x0b, 0x01, 0, 0}, {0x32, 0x01, 0, 0}}
+	rep := func(h []byte, n int) []byte {
+		var o []byte
+		for len(o) < n {
+			o = append(o, h...)
+		}
+		return o[:n]
+	}
+	carriers := []struct {
+		t uint8
+		n []int
+	}{{ref.AtRAND, []int{16}}, {ref.AtAUTN, []int{16}}, {ref.AtRES, []int{4, 8, 16}}, {ref.AtKDFInput, []int{4, 12, 20}}, {ref.AtCheckcode, []int{20, 32}}}
+	for hi, h := range hdrs {
+		for _, ca := range carriers {
+			if !c.Mine() {
+				continue
+			}
+			for _, n := range ca.n {
+				for _, others := range [][]ref.AKAAttr{nil, {{T: ref.AtKDF, V: []byte{0, 1}}}, {{T: ref.AtRAND, V: univ.Pat(16, 1)}, {T: ref.AtAUTN, V: univ.Pat(16, 2)}}} {
+					var ats []ref.AKAAttr
+					for _, o := range others {
+						if o.T != ca.t {
+							ats = append(ats, o)
+						}
+					}
+					ats = append(ats, ref.AKAAttr{T: ca.t, V: rep(h, n)})
+					// offset variant: the look-alike word starts at the second word of the value
+					e := &ref.EAP{Code: 1, ID: uint8(hi), Method: 50, Sub: 1, AKA: ats}
+					name := fmt.Sprintf("lookalike=%x in at%d", h, ca.t)
+					for _, prior := range []int{0, 1, 2} {
+						c15Sender(c, c15Case{K: "sender", Name: name, E: e, KeyLen: 32, KeyPat: 2, Prior: prior})
+					}
+					re := *e
+					re.AKA = append(append([]ref.AKAAttr(nil), ats...), ref.AKAAttr{T: ref.AtMAC, V: make([]byte, 16)})
+					c15RefReceiver(c, &re, name)
+					// AT_MAC first, the carrier after it
+					re2 := *e
+					re2.AKA = append([]ref.AKAAttr{{T: ref.AtMAC, V: make([]byte, 16)}}, ats...)
+					c15RefReceiver(c, &re2, name)
+				}
+			}
+		}
+	}
+}
+
+// c15SpareWords: a foreign sender may reserve whole zero words behind the value of AT_RES / AT_KDF_INPUT; the
+// receiver must still compute the transmitted code (its computation covers the packet as sent).
+func c15SpareWords(c *engine.Ctx) {
+	for mask := 0; mask < 16; mask++ {
+		if !c.Mine() {
+			continue
+		}
+		for _, rl := range []int{4, 7, 8, 16} {
+			for _, kl := range []int{0, 5, 12} {
+				for spare := 1; spare <= 2; spare++ {
+					ats := []ref.AKAAttr{}
+					if mask&1 != 0 {
+						ats = append(ats, ref.AKAAttr{T: ref.AtRAND, V: univ.Pat(16, 1)})
+					}
+					if mask&2 != 0 {
+						ats = append(ats, ref.AKAAttr{T: ref.AtRES, V: univ.Pat(rl, 3)})
+					}
+					if mask&4 != 0 {
+						ats = append(ats, ref.AKAAttr{T: ref.AtKDFInput, V: univ.Pat(kl, 5)})
+					}
+					if mask&8 != 0 {
+						ats = append(ats, ref.AKAAttr{T: ref.AtKDF, V: []byte{0, 1}})
+					}
+					if mask&6 == 0 {
+						continue
+					}
+					ats = append(ats, ref.AKAAttr{T: ref.AtMAC, V: make([]byte, 16)})
+					e := &ref.EAP{Code: 2, ID: uint8(mask), Method: 50, Sub: 1, AKA: ats}
+					wire, err := c14WireBytes(e, 3, 0, spare)
+					if err != nil {
+						continue
+					}
+					key := c15Key(32, 2)
+					mac, err := ref.AtMACOverWire(key, wire)
+					off := macSpan(wire)
+					if err != nil || off < 0 {
+						continue
+					}
+					copy(wire[off:], mac)
+					c15Receiver(c, c15Case{K: "receiver", Name: fmt.Sprintf("spare-words=%d subset=%04b", spare, mask), E: e, KeyLen: 32, KeyPat: 2}, wire)
+				}
+			}
+		}
+	}
+}
+
 func runC15(c *engine.Ctx) {
 	c15Foreign(c)
+	c15Lookalike(c)
+	c15SpareWords(c)
 	vals := map[uint8][]byte{ref.AtRAND: univ.Pat(16, 1), ref.AtAUTN: univ.Pat(16, 2), ref.AtRES: univ.Pat(7, 3), ref.AtMAC: univ.Pat(16, 4),
 		ref.AtKDF: {0, 1}, ref.AtKDFInput: univ.Pat(9, 5), ref.AtCheckcode: univ.Pat(20, 6)}
 	valsAligned := map[uint8][]byte{ref.AtRAND: univ.Pat(16, 11), ref.AtAUTN: univ.Pat(16, 12), ref.AtRES: univ.Pat(8, 13), ref.AtMAC: univ.Pat(16, 14),
